@@ -183,6 +183,16 @@ func init() {
 		Setup: func(w *fw.W) error {
 			htmlLists()
 			vectors = c04Vectors(false)
+			// constructs with two correlated names or with named character references: detection may differ
+			// between spellings only through their case (not part of the must-detect grammar, only of the invariance check)
+			for _, ref := range []string{"&newline;", "&tab;", "&colon;", "&lpar;", "&#x0a;", "&#9;"} {
+				for _, a := range []string{"href", "src", "action", "xlink:href"} {
+					vectors = append(vectors, "<a "+a+"=\"ja"+ref+"vascript:alert(1)\">", "<a "+a+"=java"+ref+"script"+ref+"alert(1)>", "<a "+a+"='"+ref+"data:x'>")
+				}
+			}
+			for _, pfx := range []string{"xl", "x", "xlink", "svg", "a1"} {
+				vectors = append(vectors, "<svg xmlns:"+pfx+"=http://www.w3.org/1999/xlink><a "+pfx+":href=javascript:alert(1)>", "<svg xmlns:"+pfx+"=x "+pfx+":href=data:y>", "<a xmlns:"+pfx+"=x><b "+pfx+":onclick=alert(1)>")
+			}
 			return nil
 		},
 		Phases: []fw.Phase{
